@@ -573,3 +573,103 @@ package measure
 //@   loop 0 invariant positive: (forall a :: 0 <= a && a < len(dps.timestamps) ==> dps.timestamps[a] > 0) && (forall a :: 0 <= a && a < len(dps.seriesIDs) ==> dps.seriesIDs[a] != 0)
 //@   loop 0 invariant start: i == 0 ==> sidPrev == 0 && tsPrev == 0
 //@   loop 0 invariant run: i > 0 ==> sidPrev == dps.seriesIDs[i-1] && tsPrev == dps.timestamps[i-1]
+//
+//@ section C01 C11
+//
+// ---- escaped, delimiter-terminated array elements / entity values (same codec as pkg/pb/v1 marshalEntityValue) ----
+//@ func bytes.IndexByte
+//@   assumed standard library: index of the first occurrence of c, or -1
+//@   pure
+//@   ensures -1 <= result && result < len(b)
+//@   ensures hit:  result >= 0 ==> b[result] == c && (forall j :: 0 <= j && j < result ==> b[j] != c)
+//@   ensures miss: result < 0 ==> (forall j :: 0 <= j && j < len(b) ==> b[j] != c)
+//
+// 124 is the field delimiter '|', 92 the escape byte '\\'.
+//@ spec func special(b byte) bool = b == 124 || b == 92
+//@ spec func appendShape(r []byte, d []byte) bool = (sameobj(r, d) && off(r) == off(d) && cap(r) == cap(d)) || fresh(r)
+//
+// escLen(src, k): the number of bytes the first k bytes of src occupy once escaped - the position map between a value and
+// its encoding (byte k of src is written at offset escLen(src, k) of the field, after an escape byte when it is special).
+//@ spec func rec escLen(src []byte, k int) int = ite(k <= 0, 0, escLen(src, k-1) + ite(special(src[k-1]), 2, 1))
+//
+//@ lemma escLenBounds(src []byte, k int)
+//@   mode int
+//@   induction k
+//@   requires 0 <= k && k <= len(src)
+//@   ensures  k <= escLen(src, k) && escLen(src, k) <= 2*k
+//@ lemma escLenPlain(src []byte, k int)
+//@   mode int
+//@   induction k
+//@   requires 0 <= k && k <= len(src) && (forall j :: 0 <= j && j < k ==> !special(src[j]))
+//@   ensures  escLen(src, k) == k
+//@ lemma escLenStep(src []byte, k int)
+//@   mode int
+//@   requires 0 <= k && k < len(src)
+//@   ensures  escLen(src, k+1) == escLen(src, k) + ite(special(src[k]), 2, 1)
+//
+// marshalVarArray appends exactly one field: every byte of src in order, each '|' or '\\' preceded by one escape byte,
+// then one unescaped delimiter. The already written part of dest is not touched. (nil and empty both give a bare '|':
+// "an empty string or byte value reads back as null".)
+//@ func marshalVarArray
+//@   mode int
+//@   requires !sameobj(dest, src)
+//@   modifies dest[len(dest):cap(dest)]
+//@   uses escLenPlain
+//@   opt split-returns
+//@   ensures  shape:  appendShape(result, dest)
+//@   ensures  prefix: result[:len(dest)] == old(dest[:])
+//@   ensures  length: len(result) == len(dest) + escLen(src, len(src)) + 1
+//@   ensures  terminator: result[len(result)-1] == 124
+//@   ensures  body: forall k :: 0 <= k && k < len(src) ==> ite(special(src[k]), result[len(dest)+escLen(src, k)] == 92 && result[len(dest)+escLen(src, k)+1] == src[k], result[len(dest)+escLen(src, k)] == src[k])
+//@   ensures  field: encAt(result[len(dest):], src)
+//@   loop 0 invariant appendShape(dest, old(dest)) && len(dest) == old(len(dest)) + escLen(src, range_i)
+//@   loop 0 invariant dest[:old(len(dest))] == old(dest[:])
+//@   loop 0 invariant forall k :: 0 <= k && k < range_i ==> escLen(src, k) < escLen(src, k+1) && escLen(src, k+1) <= escLen(src, range_i)
+//@   loop 0 invariant forall k :: 0 <= k && k < range_i ==> ite(special(src[k]), dest[old(len(dest))+escLen(src, k)] == 92 && dest[old(len(dest))+escLen(src, k)+1] == src[k], dest[old(len(dest))+escLen(src, k)] == src[k])
+//
+// encAt(src, v): src starts with the field that marshalVarArray writes for v (its "body" and "terminator" clauses).
+//@ spec func encAt(src []byte, v []byte) bool = len(src) >= escLen(v, len(v)) + 1 && src[escLen(v, len(v))] == 124 &&
+//@     (forall k :: 0 <= k && k < len(v) ==> ite(special(v[k]), src[escLen(v, k)] == 92 && src[escLen(v, k)+1] == v[k], src[escLen(v, k)] == v[k]))
+//
+//@ lemma escLenMono(src []byte, j int, k int)
+//@   mode int
+//@   induction k
+//@   requires 0 <= j && j <= k && k <= len(src)
+//@   ensures  escLen(src, j) <= escLen(src, k)
+//
+// unmarshalVarArray on arbitrary bytes: never faults, terminates, and on success hands back a strict suffix of src and
+// dest extended in place (or reallocated) with its old content intact.
+//@ func unmarshalVarArray
+//@   mode int
+//@   requires !sameobj(dest, src)
+//@   modifies dest[len(dest):cap(dest)]
+//@   ensures  tail:  result2 == nil ==> sameobj(result1, src) && off(result1) > off(src) && off(result1) + len(result1) == off(src) + len(src)
+//@   ensures  grows: result2 == nil ==> appendShape(result0, dest) && len(result0) >= len(dest) && result0[:len(dest)] == old(dest[:])
+//@   loop 0 invariant sameobj(src, old(src)) && off(src) >= old(off(src)) && off(src) + len(src) == old(off(src) + len(src))
+//@   loop 0 invariant appendShape(dest, old(dest)) && len(dest) >= old(len(dest)) && dest[:old(len(dest))] == old(dest[:])
+//@   loop 0 decreases len(src)
+//
+// The inverse direction, for every value (the ghost fieldValue is arbitrary): if src starts with the field written for
+// fieldValue, decoding succeeds, appends exactly fieldValue to dest and returns exactly the bytes after that field. With
+// marshalVarArray's postcondition this is unmarshal(marshal(d, v) ++ rest) = (d' ++ v, rest); applied field by field it
+// makes a concatenation of fields - a series key - decode back to the same values, so two different value lists never share a key.
+//@ ghost var fieldValue []byte
+//@ func unmarshalVarArray#inverse
+//@   mode int
+//@   uses escLenMono escLenBounds
+//@   opt split-returns
+//@   at-stmt "return dest, src[1:], nil" requires the-byte-read-is-the-one-after-the-bytes-decoded-so-far: len(src) > 0 && old(src)[escLen(fieldValue, len(dest) - old(len(dest)))] == src[0]
+//@   at-stmt "return dest, src[1:], nil" requires the-whole-value-has-been-read: len(dest) - old(len(dest)) == len(fieldValue)
+//@   requires !sameobj(dest, src) && !sameobj(dest, fieldValue)
+//@   requires encAt(src, fieldValue)
+//@   modifies dest[len(dest):cap(dest)]
+//@   ensures  succeeds: result2 == nil
+//@   ensures  value: len(result0) == len(dest) + len(fieldValue) && (forall k :: 0 <= k && k < len(fieldValue) ==> result0[len(dest)+k] == fieldValue[k])
+//@   ensures  rest: sameobj(result1, src) && off(result1) == off(src) + escLen(fieldValue, len(fieldValue)) + 1 && len(result1) == len(src) - escLen(fieldValue, len(fieldValue)) - 1
+//@   ensures  prefix: result0[:len(dest)] == old(dest[:])
+//@   loop 0 invariant sameobj(src, old(src)) && off(src) + len(src) == old(off(src) + len(src))
+//@   loop 0 invariant appendShape(dest, old(dest)) && dest[:old(len(dest))] == old(dest[:])
+//@   loop 0 invariant old(len(dest)) <= len(dest) && len(dest) - old(len(dest)) <= len(fieldValue)
+//@   loop 0 invariant off(src) - old(off(src)) == escLen(fieldValue, len(dest) - old(len(dest)))
+//@   loop 0 invariant forall k :: 0 <= k && k < len(dest) - old(len(dest)) ==> dest[old(len(dest))+k] == fieldValue[k]
+//@   loop 0 decreases len(src)
